@@ -33,6 +33,10 @@ def gen_num(rng):
 
 
 def gen_int03(rng):
+    # loop limits: mostly integral; a fraction is a well-typed number too (int() of it for a Parallel Loop, `c < n`
+    # for a Counting Loop), 1/2 being the case below 1
+    if rng.random() < 0.1:
+        return {"q": [rng.choice([1, 1, 3, 5]), 2]}
     return {"q": [rng.choice([0, 1, 1, 2, 2, 3]), 1]}
 
 
@@ -41,7 +45,7 @@ def gen_P(rng):
 
 
 def gen_R(rng):
-    # r.n and r.m.n are used as loop limits: keep them integral so that parallel loops are well-defined
+    # r.n and r.m.n are used as loop limits
     return {"n": gen_int03(rng), "b": rng.random() < 0.5, "parts": [gen_P(rng) for _ in range(rng.randint(0, 3))],
             "m": {"n": gen_int03(rng), "b": rng.random() < 0.5}, "x": gen_x(rng)}
 
